@@ -119,6 +119,18 @@ var (
 // (space). Trailing markdown escapes do not occur (the suffix alphabet has no '|').
 func tokens(s string) []string { return tokRe.FindAllString(s, -1) }
 
+// lines returns the non-empty lines of a rendering: every renderer writes one unit per line
+// (paragraph, heading, list item, table row).
+func lines(s string) []string {
+	var out []string
+	for _, l := range strings.Split(s, "\n") {
+		if strings.TrimSpace(l) != "" {
+			out = append(out, l)
+		}
+	}
+	return out
+}
+
 func ids(toks []string) []string {
 	out := make([]string, len(toks))
 	for i, t := range toks {
